@@ -164,6 +164,7 @@ func Gen(r *kit.Rand, tier kit.Tier, auto bool) Cfg {
 	// the MMU is handed a page table of a foreign type now and then: one that has
 	// the five vm.PageTable methods and nothing else
 	c.PlainPT = r.Chance(1, 6)
+	c.MemAcceptEvery = r.PickInt(0, 0, 0, 3, 10, 40)
 
 	return c
 }
@@ -405,7 +406,7 @@ func init() {
 		Assumptions: []string{"pages are aligned and of the table's page size", "during an update (between the table change and the last invalidation acknowledgment) the previous mapping may still be returned"},
 		Real:        real,
 		Stubs:       []string{"requesters", "recording memory stub", "control / update driver"},
-		FaultKinds:  []string{"page-table-update", "control-verb", "page-table-of-foreign-type"},
+		FaultKinds:  []string{"page-table-update", "control-verb", "page-table-of-foreign-type", "memory-back-pressure"},
 		Quick:       kit.Budget{Runs: 60000, WallS: 100},
 		Thorough:    kit.Budget{Runs: 800000, WallS: 1500, CaseS: 300},
 		Gen: func(r *kit.Rand, t kit.Tier) Cfg {
